@@ -274,6 +274,16 @@ static sqf::runtime::runtime::result execute_do(sqf::runtime::runtime& runtime, 
     }
 }
 
+std::shared_ptr<sqf::runtime::value_scope> sqf::runtime::runtime::current_value_scope()
+{
+    if (m_context_active && !m_context_active->empty())
+    {
+        auto scope = m_context_active->current_frame().globals_value_scope();
+        if (scope) { return scope; }
+    }
+    return default_value_scope();
+}
+
 sqf::runtime::runtime::result sqf::runtime::runtime::execute(sqf::runtime::runtime::action action)
 {
     sqf::runtime::runtime::result res = result::invalid;
